@@ -900,3 +900,126 @@ Example model_vector :
   hex_of_bytes (encode (catalog_of_kb "ModelKB" "7" [vec_rule])) = String.concat "" model_vector_hex /\
   rules_ok [vec_rule] = true.
 Proof. vm_compute. split; reflexivity. Qed.
+
+(* ------------------------------------------------------------------------- *)
+(* 11. removed rules stay removed (engine commit 01c7ce8)                     *)
+
+Lemma strip_prefix_app : forall p s, strip_prefix p (p ++ s)%string = Some s.
+Proof. induction p; intros; cbn [append strip_prefix]; auto. rewrite Ascii.eqb_refl. apply IHp. Qed.
+
+Lemma strip_prefix_some : forall p s r, strip_prefix p s = Some r -> s = (p ++ r)%string.
+Proof.
+  induction p; intros s r H; cbn [strip_prefix append] in *.
+  - inversion H. reflexivity.
+  - destruct s; [discriminate|]. destruct (Ascii.eqb_spec a a0); [|discriminate]. subst. f_equal. auto.
+Qed.
+
+(* the name RemoveRuleEntry gives a removed rule is recognised *)
+Lemma tombstone_of_uuid : forall u, is_uuid u = true -> is_tombstone_name (tombstone_prefix ++ u)%string = true.
+Proof. intros u H. unfold is_tombstone_name. rewrite strip_prefix_app. exact H. Qed.
+
+Lemma no_dash_app : forall a b, no_dash (a ++ b)%string = true -> no_dash b = true.
+Proof.
+  induction a; intros b H; cbn [append no_dash] in *; auto.
+  apply andb_true_iff in H. destruct H. auto.
+Qed.
+
+Lemma uuid_chars_no_dash : forall s k, uuid_chars k s = true -> no_dash s = true -> (k <= 8)%nat ->
+  (String.length s + k <= 8)%nat.
+Proof.
+  induction s as [|c s IH].
+  - intros k Hu Hn Hk. exact Hk.
+  - intros k Hu Hn Hk. cbn [String.length]. cbn [uuid_chars no_dash] in Hu, Hn.
+    apply andb_true_iff in Hu. destruct Hu as [Hc Hu]. apply andb_true_iff in Hn. destruct Hn as [Hd Hn].
+    destruct (Nat.eqb k 8) eqn:E8.
+    + cbn [orb] in Hc. rewrite Hc in Hd. discriminate.
+    + assert (Hs : (S k <= 8)%nat).
+      { destruct (Nat.le_gt_cases (S k) 8) as [Hle|Hgt]; [exact Hle|]. exfalso. apply Nat.eqb_neq in E8. apply E8. apply Nat.le_antisymm; [exact Hk | apply Nat.succ_le_mono; exact Hgt]. }
+      specialize (IH (S k) Hu Hn Hs). rewrite Nat.add_succ_r in IH. exact IH.
+Qed.
+
+(* a name without '-' (every rule name of the grammar) is never a tombstone: built rules load as active *)
+Lemma no_dash_not_tombstone : forall name, no_dash name = true -> is_tombstone_name name = false.
+Proof.
+  intros name H. unfold is_tombstone_name.
+  destruct (strip_prefix tombstone_prefix name) as [rest|] eqn:E; [|reflexivity].
+  apply strip_prefix_some in E. subst name. apply no_dash_app in H.
+  unfold is_uuid. destruct (Nat.eqb_spec (String.length rest) uuid_length) as [Hl|]; [|reflexivity].
+  destruct (uuid_chars 0 rest) eqn:Hu; [|reflexivity]. exfalso.
+  pose proof (uuid_chars_no_dash rest 0 Hu H). unfold uuid_length in Hl. lia.
+Qed.
+
+Lemma entries_rebuild : forall es, entries_consistent es = true ->
+  map (fun r => {| ke_rule := r; ke_deleted := is_tombstone_name (rname r) |}) (map ke_rule es) = es.
+Proof.
+  induction es as [|[r d] es IH]; intros H; cbn [map entries_consistent forallb] in *; [reflexivity|].
+  apply andb_true_iff in H. destruct H as [He Hes]. unfold entry_consistent in He. cbn [ke_rule ke_deleted] in *.
+  apply Bool.eqb_prop in He. rewrite <- He, IH by exact Hes. reflexivity.
+Qed.
+
+(* store, load: the same rules with the same flags *)
+Theorem entries_of_catalog_of_entries : forall name version es,
+  rules_ok (map ke_rule es) = true -> entries_consistent es = true ->
+  entries_of_catalog (catalog_of_entries name version es) = Ok es.
+Proof.
+  intros name version es Hok Hc. unfold entries_of_catalog, catalog_of_entries.
+  rewrite kb_of_catalog_of_kb by exact Hok. cbn [rbind]. rewrite entries_rebuild by exact Hc. reflexivity.
+Qed.
+
+(* removal keeps the invariant, so a knowledge base with removed rules round-trips as well *)
+Lemma remove_rule_consistent : forall u name es, is_uuid u = true -> entries_consistent es = true ->
+  entries_consistent (remove_rule u name es) = true.
+Proof.
+  intros u name es Hu. induction es as [|e es IH]; intros H; cbn [remove_rule entries_consistent forallb] in *; [reflexivity|].
+  apply andb_true_iff in H. destruct H as [He Hes].
+  destruct (String.eqb (rname (ke_rule e)) name).
+  - cbn [forallb]. apply andb_true_iff. split; [|exact Hes].
+    unfold entry_consistent. cbn [ke_rule ke_deleted rename_rule rname]. rewrite tombstone_of_uuid by exact Hu. reflexivity.
+  - cbn [forallb]. apply andb_true_iff. split; [exact He | apply IH; exact Hes].
+Qed.
+
+Lemma remove_rule_ok : forall u name es, rules_ok (map ke_rule (remove_rule u name es)) = rules_ok (map ke_rule es).
+Proof.
+  intros u name. induction es as [|e es IH]; cbn [remove_rule map]; [reflexivity|].
+  destruct (String.eqb (rname (ke_rule e)) name); cbn [map rules_ok forallb ke_rule].
+  - reflexivity.
+  - unfold rules_ok in IH. rewrite IH. reflexivity.
+Qed.
+
+Definition C12_removed_preserved_statement : Prop :=
+  forall name version es, rules_ok (map ke_rule es) = true -> entries_consistent es = true ->
+    (* the loaded knowledge base has the same rules with the same removed / active flags … *)
+    entries_of_catalog (catalog_of_entries name version es) = Ok es /\
+    (* … also through the stream, and therefore after any number of store / load generations *)
+    (wf_catalog (catalog_of_entries name version es) = true ->
+       match decode (encode (catalog_of_entries name version es)) with
+       | Ok c => entries_of_catalog c = Ok es
+       | _ => False
+       end) /\
+    (* removing a rule (fresh uuid u) gives a knowledge base that is again of this kind *)
+    (forall u rule_name, is_uuid u = true ->
+       entries_consistent (remove_rule u rule_name es) = true /\
+       rules_ok (map ke_rule (remove_rule u rule_name es)) = true).
+Theorem C12_removed_preserved_proved : C12_removed_preserved_statement.
+Proof.
+  intros name version es Hok Hc. split; [apply entries_of_catalog_of_entries; assumption|]. split.
+  - intros Hwf. rewrite codec_roundtrip by exact Hwf. apply entries_of_catalog_of_entries; assumption.
+  - intros u rn Hu. split; [apply remove_rule_consistent; assumption | rewrite remove_rule_ok; exact Hok].
+Qed.
+
+(* two rules, one removed under a uuid: stored, loaded, stored, loaded - flags [active; removed] *)
+Definition example_entries : list kb_entry :=
+  remove_rule "59c5857e-0237-4bb9-9d7f-e3651503ab8c" "Gone"
+    [ {| ke_rule := example_rule; ke_deleted := false |};
+      {| ke_rule := rename_rule "Gone" example_rule; ke_deleted := false |} ].
+
+Example example_removed_roundtrip :
+  entries_consistent example_entries = true /\
+  map ke_deleted example_entries = [false; true] /\
+  (do c <- decode (encode (catalog_of_entries "K" "1" example_entries));
+   do es <- entries_of_catalog c;
+   do c2 <- decode (encode (catalog_of_entries "K" "1" es));
+   do es2 <- entries_of_catalog c2;
+   Ok (map (fun e => (rname (ke_rule e), ke_deleted e)) es2)) =
+  Ok [("R1", false); ("Deleted_59c5857e-0237-4bb9-9d7f-e3651503ab8c", true)].
+Proof. vm_compute. repeat split; reflexivity. Qed.
